@@ -5,8 +5,20 @@ compute_dyadic_downscaling) and RECORD what it wrote.  No judging here.
   the module attribute `np` with a proxy (run-time, no source change): every
   buffer the assembly allocates is pre-filled with a byte pattern, so that a
   voxel that is never written differs between two runs with two patterns.
-* the global reference is the implementation's own downscaler applied to the
-  whole previous level as one array (the property's definition).
+* the global reference is the implementation's own downscaler CLASS
+  (constructed directly, not through get_downscaler - the selection function
+  is part of what is checked) applied to the whole previous level as one array
+  (the property's definition).
+* the pyramid step is entered either through the library
+  (get_downscaler(method, info, options) + compute_dyadic_scales) or through the
+  command-line entry point scripts.compute_scales.main(argv) in this process
+  (--downscaling-method / --outside-value / --flat / --no-gzip), method "auto"
+  included.
+* source faults: right before the step that reads scale k, one chunk of scale
+  k is removed ("missing"), gets a bad gzip magic number ("badgzip") or loses
+  its last byte ("truncated", raw encoding without gzip); for sharded storage
+  one chunk of the first scale is never written.  The intact content of scale
+  k is recorded before the damage.
 * provenance traces use recording reader / writer objects (public parameters
   of compute_dyadic_downscaling) on coordinate-coded volumes.
 """
@@ -117,12 +129,14 @@ def open_accessor(path, storage):
                                       gzip=(storage == "gzip"))
 
 
-def write_level0(path, info, storage, vol):
+def write_level0(path, info, storage, vol, skip=None):
     from neuroglancer_scripts import precomputed_io
     acc = open_accessor(path, storage)
     pio = precomputed_io.get_IO_for_new_dataset(json.loads(json.dumps(info)), acc)
     s0 = info["scales"][0]
     for c in chunk_grid(s0["size"], s0["chunk_sizes"][0]):
+        if skip is not None and tuple(c) == tuple(skip):
+            continue            # source fault "missing": this chunk is never written
         pio.write_chunk(np.ascontiguousarray(vol[:, c[4]:c[5], c[2]:c[3], c[0]:c[1]]),
                         s0["key"], c)
     if storage == "sharded":
@@ -145,44 +159,144 @@ def read_level(pio, info, k):
     return arr, missing
 
 
-def run_pyramid(workdir, info, storage, vol, method, pattern, outside_value=None):
-    """write level 0, run the REAL compute_dyadic_scales with np.empty
+def chunk_file(d, storage, key, c):
+    """path of a chunk file as the FileAccessor configurations used here lay it out"""
+    if storage == "flat":
+        p = os.path.join(d, key, "%d-%d_%d-%d_%d-%d" % tuple(c))
+    else:
+        p = os.path.join(d, key, "%d-%d" % (c[0], c[1]), "%d-%d" % (c[2], c[3]), "%d-%d" % (c[4], c[5]))
+    return p + (".gz" if storage == "gzip" else "")
+
+
+def fault_chunk(info, fault):
+    sc = info["scales"][fault["level"]]
+    grid = chunk_grid(sc["size"], sc["chunk_sizes"][0])
+    return grid[fault["pick"] % len(grid)]
+
+
+def apply_fault(d, storage, info, fault):
+    """damage one chunk FILE of scale fault['level'] (file storages)"""
+    key = info["scales"][fault["level"]]["key"]
+    path = chunk_file(d, storage, key, fault_chunk(info, fault))
+    if fault["kind"] == "missing":
+        os.unlink(path)
+    elif fault["kind"] == "badgzip":
+        with open(path, "r+b") as f:
+            f.write(b"\0\0")
+    elif fault["kind"] == "truncated":
+        with open(path, "r+b") as f:
+            f.truncate(os.path.getsize(path) - 1)
+    else:
+        raise ValueError(fault["kind"])
+
+
+def cli_argv(workdir, storage, method, outside_value, explicit_auto):
+    argv = ["compute-scales"]
+    if method != "auto" or explicit_auto:
+        argv += ["--downscaling-method", method]
+    if outside_value is not None:
+        argv += ["--outside-value", str(outside_value)]
+    if storage == "flat":
+        argv += ["--flat"]
+    if storage in ("deep", "flat"):
+        argv += ["--no-gzip"]
+    return argv + [workdir]
+
+
+def run_cli(argv):
+    """scripts.compute_scales.main(argv) in this process; the accessor the tool
+    creates must not stay registered with atexit (its directory is removed),
+    the logging configuration of the tool is undone."""
+    import atexit
+    import logging
+    from neuroglancer_scripts.scripts import compute_scales
+    registered = []
+    real_register = atexit.register
+
+    def recording_register(fn, *a, **kw):
+        registered.append(fn)
+        return real_register(fn, *a, **kw)
+
+    root = logging.getLogger()
+    handlers, level = list(root.handlers), root.level
+    atexit.register = recording_register
+    try:
+        return compute_scales.main(argv)
+    finally:
+        atexit.register = real_register
+        for fn in registered:
+            atexit.unregister(fn)
+        for h in list(root.handlers):
+            if h not in handlers:
+                root.removeHandler(h)
+        root.setLevel(level)
+
+
+def run_pyramid(workdir, info, storage, vol, method, pattern, outside_value=None,
+                via="lib", fault=None, explicit_auto=False):
+    """write level 0, run the REAL pyramid step (library: get_downscaler +
+    compute_dyadic_scales; cli: scripts.compute_scales.main) with np.empty
     poisoned, read every level back through a fresh accessor.
-    Returns dict(raised, levels=[array...], missing=[...], empties)."""
+    fault = dict(level, kind, pick): see the module header.
+    Returns dict(raised, levels=[array...], missing=[...], empties, intact)."""
     from neuroglancer_scripts import downscaling, dyadic_pyramid, precomputed_io
     d = tempfile.mkdtemp(prefix="pyr_", dir=workdir)
     old_tmp = tempfile.tempdir
     tempfile.tempdir = workdir
-    res = {"raised": "", "msg": "", "levels": [], "missing": [], "empties": 0, "started": []}
+    res = {"raised": "", "msg": "", "levels": [], "missing": [], "empties": 0, "started": [],
+           "intact": None, "fault_applied": False}
     real_step = dyadic_pyramid.compute_dyadic_downscaling
+    at_write = fault is not None and storage == "sharded"
 
     def logged_step(info_, source_scale_index, *a, **kw):
         # public boundary: which transition is being computed (recorded only)
         res["started"].append(int(source_scale_index))
+        if fault is not None and not at_write and not res["fault_applied"] \
+                and int(source_scale_index) == fault["level"]:
+            pio_f = precomputed_io.get_IO_for_existing_dataset(open_accessor(d, storage))
+            try:
+                res["intact"], _ = read_level(pio_f, info, fault["level"])
+                apply_fault(d, storage, info, fault)
+                res["fault_applied"] = True
+            except Exception as e:      # harness problem: the case is dropped, never judged
+                res["fault_error"] = "%s: %s" % (type(e).__name__, e)
+                res["fault_applied"] = True
         return real_step(info_, source_scale_index, *a, **kw)
 
     try:
         with quiet():
             try:
-                write_level0(d, info, storage, vol)
+                write_level0(d, info, storage, vol,
+                             skip=fault_chunk(info, fault) if at_write else None)
+                if at_write:
+                    res["intact"] = vol
+                    res["fault_applied"] = True
             except Exception as e:      # the dataset could not even be set up
                 res["setup_error"] = type(e).__name__
                 return res
-            acc = open_accessor(d, storage)
-            pio = precomputed_io.get_IO_for_existing_dataset(acc)
-            opts = {"outside_value": outside_value} if outside_value is not None else {}
-            ds = downscaling.get_downscaler(method, pio.info, opts)
             with poisoned(pattern) as proxy:
                 dyadic_pyramid.compute_dyadic_downscaling = logged_step
+                acc = None
                 try:
-                    dyadic_pyramid.compute_dyadic_scales(pio, ds)
+                    if via == "cli":
+                        rc = run_cli(cli_argv(d, storage, method, outside_value, explicit_auto))
+                        if rc:
+                            res["raised"] = "exit:%s" % rc
+                    else:
+                        acc = open_accessor(d, storage)
+                        pio = precomputed_io.get_IO_for_existing_dataset(acc)
+                        opts = {"outside_value": outside_value} if outside_value is not None else {}
+                        ds = downscaling.get_downscaler(method, pio.info, opts)
+                        dyadic_pyramid.compute_dyadic_scales(pio, ds)
                 except Exception as e:  # recorded, judged by TLC
                     res["raised"] = type(e).__name__
                     res["msg"] = str(e)[:120]
+                except SystemExit as e:
+                    res["raised"] = "SystemExit:%s" % (e.code,)
                 finally:
                     dyadic_pyramid.compute_dyadic_downscaling = real_step
             res["empties"] = proxy.empties
-            if storage == "sharded":
+            if storage == "sharded" and acc is not None:
                 try:
                     acc.close()
                 except Exception as e:
@@ -206,11 +320,22 @@ def pair_factors(info, k):
     return [1 if x == y else 2 for x, y in zip(a, b)]
 
 
+def reference_downscaler(name, outside_value=None):
+    """the implementation's documented downscaler classes, constructed
+    directly (get_downscaler and the command line are what is being checked)"""
+    from neuroglancer_scripts import downscaling
+    if name == "average":
+        return downscaling.AveragingDownscaler(outside_value)
+    if name == "majority":
+        return downscaling.MajorityDownscaler()
+    if name == "stride":
+        return downscaling.StridingDownscaler()
+    raise ValueError(name)
+
+
 def global_reference(prev, info, k, method, outside_value=None):
     """the implementation's own downscaler applied to the WHOLE previous level"""
-    from neuroglancer_scripts import downscaling
-    opts = {"outside_value": outside_value} if outside_value is not None else {}
-    ds = downscaling.get_downscaler(method, info, opts)
+    ds = reference_downscaler(method, outside_value)
     return np.asarray(ds.downscale(prev, pair_factors(info, k)))
 
 
